@@ -1242,9 +1242,10 @@ class WorkflowConductor(object):
         for e in [e for e in self.errors if e.get("task_id", None) == task_id]:
             self.errors.remove(e)
 
-        # If task has items, then use existing staged task entry and reset failed items.
-        if task_spec.has_items():
-            staged_task = self.workflow_state.get_staged_task(task_id, route)
+        # If task has items, then use existing staged task entry and reset failed items. The
+        # staged entry is only kept for a task with failed items; a task whose items all
+        # completed is run again as a whole like any other task.
+        if task_spec.has_items() and staged_task:
             for item in staged_task.get("items", []):
                 if reset_items or item["status"] in statuses.ABENDED_STATUSES:
                     item["status"] = statuses.UNSET
